@@ -98,11 +98,16 @@ def run(prop, tier, replay=None):
             v["id"] = i + 1
             v["seed"] = s
         states, trans = res.distinct, res.generated
-        log(f"GEN Generate: {len(vectors)} (output shape, exit code, format, escaper, path) cases with <= {k} lines over 25 line classes, {res.wall:.0f}s")
+        log(f"GEN Generate: {len(vectors)} (output shape, exit code, format, escaper, path) cases with <= {k} lines over 26 line classes, {res.wall:.0f}s")
     vpath, rpath = os.path.join(work, "vectors.ndjson"), os.path.join(work, "records.ndjson")
     write_ndjson(vpath, vectors)
     harness(["gen-replay", "--vectors", vpath, "--records", rpath, "--seed", s])
     records = read_ndjson(rpath)
+    # update_pass / convert_pass start from the test `create` writes: where that test does not pass (the create path
+    # reports it) there is nothing to write again
+    nskip = sum(1 for r in records if r["ev"] == "Skip")
+    records = [r for r in records if r["ev"] != "Skip"]
+    cov["pass_paths_without_a_passing_start"] = nskip
     # end to end: for `create` cases, really run `scrut create` and then `scrut test` on what it wrote; the observation
     # "passes" is the conjunction of the library pipeline and the real run
     import random
